@@ -44,6 +44,9 @@ func (g *LookupGen) gid() glyph.ID {
 	return glyph.ID(g.T.Draw(g.N))
 }
 
+// GlyphSet returns 1..max distinct glyphs in increasing order.
+func (g *LookupGen) GlyphSet(max int) []glyph.ID { return g.glyphSet(max) }
+
 // glyphSet returns 1..max distinct glyphs in increasing order.
 func (g *LookupGen) glyphSet(max int) []glyph.ID {
 	k := 1 + g.T.Draw(max)
